@@ -227,7 +227,7 @@ func sharedSweep(t *testing.T, n uint32, idx int) {
 		return
 	}
 	defer syscall.Munmap(mem)
-	hdr := (*[8]uint64)(unsafe.Pointer(&mem[0])) // 0 done, 1 accepted, 2 rejected, 3 failed
+	hdr := (*[8]uint64)(unsafe.Pointer(&mem[0]))                   // 0 done, 1 accepted, 2 rejected, 3 failed
 	shared := unsafe.Slice((*uint64)(unsafe.Pointer(&mem[64])), n) // 64-bit cells: bound 1 collects all 2^32 words
 	lo := (uint64(1) << 32) * uint64(ev.Cfg.Shard) / uint64(N)
 	hi := (uint64(1) << 32) * uint64(ev.Cfg.Shard+1) / uint64(N)
